@@ -5,11 +5,9 @@
 From Coq Require Import List ZArith NArith Bool.
 From EasyML Require Import Base.Sx Model.Numeric Gen.ArithNumeric.
 Import ListNotations.
+From EasyML Require Import Proofs.GenTac.
 
-Tactic Notation "gen_equiv" ident(name) "by" tactic(t) :=
-  first [ solve [ t ]
-        | fail 1 "GENERATED-EQUIVALENCE-BROKEN" name
-                 ": the definition translated from the Rust source no longer equals the hand-written model" ].
+(* gen_equiv: Proofs/GenTac.v (the specific script, then the shape-independent finisher) *)
 
 Lemma gen_from_usize_integral_eq : forall t n, gen_from_usize_integral t n = from_usize t n.
 Proof. gen_equiv gen_from_usize_integral_eq by (intros; reflexivity). Qed.
